@@ -253,7 +253,8 @@ def model_for(occ, priors):
 
 
 def run_decl(c):
-    priors = [af.GaussianPrior(mean=unhex(mu), sigma=unhex(sg)) for mu, sg in c["priors"]]
+    # explicit ids: a replayed case behaves exactly as inside a batch
+    priors = [af.GaussianPrior(mean=unhex(mu), sigma=unhex(sg), id_=k) for k, (mu, sg) in enumerate(c["priors"])]
     index = {p: i for i, p in enumerate(priors)}
     declared, hier_groups, expanded = [], [], []
     for mfac in c["mfactors"]:
@@ -278,9 +279,14 @@ def run_decl(c):
     out = {"prior_counts": sorted([index[p], n] for p, n in top.prior_counts),
            "model_priors": [[index[p] for p in f.prior_model.priors] for f in top.model_factors]}
     approx = top.mean_field_approximation()
-    factors = list(approx.factor_graph.factors)
+    gfactors = list(approx.factor_graph.factors)
+    nm = len(top.model_factors)
+    # canonical indexing: model factors in declaration order, then prior factors by descending prior index
+    # (the order of prior factors inside the graph follows a set iteration and is reported, not assumed)
+    factors = gfactors[:nm] + sorted(gfactors[nm:], key=lambda f: -index[f.prior])
+    out["graph_order"] = [factors.index(f) for f in gfactors]
     out["kinds"] = [type(f).__name__ for f in factors]
-    out["n_model_factors"] = len(top.model_factors)
+    out["n_model_factors"] = nm
     out["state0"] = state_obs(approx, factors, index)
     out["cavity0"] = [nat(approx.factor_approximation(f).cavity_dist, index) for f in factors]
     out["model0"] = [nat(approx.factor_approximation(f).model_dist, index) for f in factors]
@@ -299,7 +305,8 @@ def run_decl(c):
         graph = top.graph
         gf = list(graph.factors)
         opt = EPOptimiser(graph, default_optimiser=rec, ep_history=hist,
-                          factor_order=[gf[i] for i in r["order"]], updater=make_updater(r["delta"], factors))
+                          factor_order=[gf[gf.index(factors[i])] for i in r["order"]],
+                          updater=make_updater(r["delta"], factors))
         final = opt.run(top.mean_field_approximation(), max_steps=r["max_steps"])
         res = EPResult(ep_history=hist, declarative_factor=top, updated_ep_mean_field=final)
     out["log"] = log_obs(hist, factors, index)
